@@ -662,8 +662,20 @@ def run(ctx):
     errname = {0: "ok", 1: "ErrMaxPosition", 2: "ErrZeroFeeRateDelta", 3: "estimator-error",
                4: "ErrFeePreferenceTooLow", 5: "ErrNotEnoughInputs", 6: "ErrTxNoOutput",
                7: "ErrNotEnoughBudget", 8: "mempool-other", 10: "publish-refused"}
+    in_kinds = {}
     for c in rows:
         bump(kinds, c["kind"] + ("/sweeper" if c.get("via") else ""))
+        if c["kind"] in ("pub", "tx"):
+            for v in c["ins"]:
+                bump(in_kinds, v.get("wt", "?"))
+                if v.get("parent"):
+                    bump(in_kinds, "with-unconfirmed-parent")
+                if v.get("lock") is not None:
+                    bump(in_kinds, "with-required-locktime")
+                if v["r"] is not None:
+                    bump(in_kinds, "with-required-output")
+                if v["v"] < 330:
+                    bump(in_kinds, "value-below-dust")
         if c["kind"] == "sw":
             sc = c["scenario"]
             bump(sw_family, sc["family"])
@@ -740,6 +752,7 @@ def run(ctx):
         "traces_validated_against_impl": len(rows),
         "case_kinds": kinds, "ff_init": ff_init, "ff_ops": ops, "ff_conf_classes": conf_hist,
         "tx_results": txerr, "publisher_events": pubev, "input_set_topups": sets,
+        "input_kinds(pub+tx rows)": in_kinds,
         "sweeper_history_families": sw_family, "sweeper_backends": sw_backend,
         "sweeper_bump_results": sw_results, "sweeper_first_result_when_not_published": sw_first_fail,
         "sweeper_request_starting_rate": sw_req_start, "sweeper_input_stored_starting_rate": sw_in_start,
